@@ -400,3 +400,4 @@ include!("c17/run.rs");
 include!("c17/bind.rs");
 include!("c17/rows.rs");
 include!("c17/bindrow.rs");
+include!("c17/deser.rs");
